@@ -18,7 +18,7 @@ LEVEL_TEXT = ("Partial + exploration: a Coq state-machine model of a memoising o
               "exploration (testing), reported as such.")
 LEVEL_NOTE = "Trusted: Coq kernel for the small cache model; Python harness for the history exploration, whose coverage is what the evidence counts."
 RULE = ("random histories (6-12 calls quick, up to 30 thorough) drawn from ~45 public queries and conversions on six kinds of objects, interleaved with mutations of "
-        "returned objects; every answer compared with the same call on a fresh equal object; operands snapshotted before/after; non-trivial = history with at least "
+        "returned objects, plus scripted histories (cache-filling query, conversion, mutation of the result, query) for grammars, automata and regexes; every answer compared with the same call on a fresh equal object; operands snapshotted before/after; non-trivial = history with at least "
         "one conversion followed by a query")
 EXPLANATION = "History replay against fresh equal objects (exploration) + proved cache-transparency of the memoisation model."
 TRUSTED = ["Coq 8.16.1 kernel (cache model)", "Python harness: history generator, canonical observers through the public API"]
@@ -80,7 +80,7 @@ def _mutate(x, rng_bits):
         try:
             x.add_transition("mut_q", "a", "mut_r")
             x.add_final_state("mut_r")
-            for s in list(x.start_states)[:1]:
+            for s in list(x.states):
                 x.add_final_state(s)
         except Exception:
             pass
@@ -116,7 +116,7 @@ def _regex_ops():
         "to_epsilon_nfa": lambda o, p: o.to_epsilon_nfa(), "to_cfg": lambda o, p: o.to_cfg(), "str": lambda o, p: str(o),
         "union": lambda o, p: o.union(p), "concatenate": lambda o, p: o.concatenate(p), "kleene_star": lambda o, p: o.kleene_star(),
         "self_union": lambda o, p: o.union(o), "other_accepts_b": lambda o, p: p.accepts(["b"]), "other_accepts_a": lambda o, p: p.accepts(["a"]),
-        "n_symbols": lambda o, p: o.get_number_symbols(),
+        "n_symbols": lambda o, p: o.get_number_symbols(), "accepts_eps": lambda o, p: o.accepts([]),
     }
 
 
@@ -196,7 +196,7 @@ def generate(ctx):
             if kind == "fst":
                 return fstlib.rand_fst(rng, max_states=3, max_trans=5)
             return iglib.rand_ig(rng, max_nt=3, max_rules=6)
-        ops = sorted(KINDS[kind]())
+        ops = sorted(n for n in KINDS[kind]() if not (kind == "regex" and n == "accepts_eps"))   # (scripted histories only: keeps the random stream)
         k = rng.randint(6, 12) if ctx.tier == "quick" else rng.randint(8, 30)
         # (subject: 0 = x, j > 0 = the object returned by step j-1 when it is of the same kind; op; mutate the returned object afterwards)
         hist = [[rng.choice([0, 0, 1, 2, 3]) , rng.choice(ops), rng.random() < 0.25] for _ in range(k)]
@@ -224,6 +224,13 @@ def generate(ctx):
                 for q in query:
                     hist = [[0, rng.choice(fill), False], [0, cv, rng.random() < 0.3], [1, q, False], [0, rng.choice(query), False]]
                     cases.append({"op": "history", "kind": kind, "x": x, "y": y, "hist": hist})
+    # regexes: a conversion whose result is mutated, issued before or after the first query that may fill the automaton cache, then a query
+    for rx in REGEXES:
+        for cv in ("to_epsilon_nfa", "to_cfg"):
+            for q in ("accepts_a", "accepts_ab", "accepts_b", "accepts_eps"):
+                cases.append({"op": "history", "kind": "regex", "x": rx, "y": "b", "hist": [[0, cv, True], [0, q, False]]})
+                cases.append({"op": "history", "kind": "regex", "x": rx, "y": "b",
+                              "hist": [[0, rng.choice(["accepts_a", "accepts_b", "str"]), False], [0, cv, True], [0, q, False], [0, cv, False]]})
     return cases
 
 
